@@ -4,10 +4,10 @@ reg("C07",
                   "src/hgraph/types/metadata/type_registry.cpp", "src/hgraph/types/metadata/type_record_registry.cpp", "include/hgraph/types/utils/intern_table.h"],
     quick=dict(defs=dict(NEMIT=3, DMAX=3, THREADS=0), symx=dict(shards=4, **{"max-wall": 600})),
     thorough=dict(defs=dict(NEMIT=4, DMAX=4, THREADS=0), symx=dict(shards=16, **{"max-wall": 1800})),
-    reach=["end", "two_cycles", "built_another_graph", "ran_another_graph", "builder_reused_three_times"],
+    reach=["end", "two_cycles", "built_another_graph", "ran_another_graph", "builder_reused_three_times", "runs_inside_selected_global_context_with_copy_back"],
     bounds="a source emitting NEMIT symbolic values at symbolic gaps in [0,DMAX] us feeds a stateful accumulator that reads and overwrites GlobalState keys; the same "
            "recipe (seeded GlobalState) is run twice; between the runs one of {nothing, build another graph, run another graph writing the same keys, reuse the builder "
-           "twice more}; every run has its own symbolic wall clock (start value in a 2e17 ns range, each reading advancing by a symbolic 0..5 ms); start time symbolic",
+           "twice more, wire and run both inside a user-selected GlobalContext copying each run's final state back into it}; every run has its own symbolic wall clock (start value in a 2e17 ns range, each reading advancing by a symbolic 0..5 ms); start time symbolic",
     outside="recorded buffers (record/replay memory nodes are not compilable under clang 14); dynamic children; dependence on allocation addresses (pointers are concrete in symx)",
     )
 reg("C07",
